@@ -194,7 +194,17 @@ def gen_case(rng, tier, index):
         picks = rng.sample(ids, k)
         if rng.random() < 0.3:
             picks.append(rng.choice(picks))  # a repeated well
-        op = rng.choice(["aspirate", "dispense", "transfer_src", "transfer_dst"])
+        op = rng.choice(["aspirate", "dispense", "transfer_src", "transfer_dst", "distribute_dst"])
+        if op == "distribute_dst":
+            # one reagent-distribution record names its destinations by position: one named well per cavity
+            # (for a trough: any one of the virtual rows of a column)
+            seen, uniq = set(), []
+            for (r, c) in picks:
+                key = (0, c) if lw["kind"] == "trough" else (r, c)
+                if key not in seen:
+                    seen.add(key)
+                    uniq.append((r, c))
+            return {"kind": "emit", "device": device, "lw": lw, "op": op, "wells": [list(p) for p in uniq], "array": rng.random() < 0.4}
         if rng.random() < 0.15:
             # the same rack label for two labware objects of different geometry on one worklist;
             # the second object is addressed through well IDs the first one was addressed through too
@@ -471,6 +481,8 @@ def _run_emit(ctx, case):
     wl = _worklist(device)
     det = lambda extra=None: dict({"case": case, "records": list(wl)}, **(extra or {}))
     expected = []
+    if op == "distribute_dst":
+        return _run_emit_distribute(ctx, case, obj, wl, picks, ids, det)
     try:
         if op in ("aspirate", "dispense"):
             getattr(wl, op)(obj, _wells_arg(ids, case.get("array")), vols if not case.get("array") else np.array(vols))
@@ -517,6 +529,34 @@ def _run_emit(ctx, case):
         ok,
         lambda: det({"expected": [list(e) for e in expected], "observed": [list(g) for g in got]}),
     )
+
+
+def _run_emit_distribute(ctx, case, obj, wl, picks, ids, det):
+    """The destination positions of the R record(s) of one distribute call are those of the named wells."""
+    lw, device = case["lw"], case["device"]
+    src = _build({"kind": "trough", "virtual_rows": 4, "columns": 2}, "S", 1e7)
+    try:
+        wl.distribute(src, 1, obj, _wells_arg(ids, case.get("array")), volume=1.0)
+        exc = None
+    except Exception as e:
+        exc = e
+    if not ctx.check("valid_ids_are_accepted", exc is None, lambda: det({"raised": repr(exc)})):
+        return
+    named = sorted(expected_position(lw, device, r, c) for r, c in picks)
+    addressed = []
+    for rec in wl:
+        try:
+            f = gwl.parse(rec)
+        except gwl.GrammarError as e:
+            ctx.check("emitted_record_parses", False, lambda: det({"record": rec, "error": repr(e)}))
+            return
+        if f.type == "R":
+            addressed += [p for p in range(f.f["dst_start"], f.f["dst_end"] + 1) if p not in f.f["exclude"]]
+    ctx.check("emitted_record_parses", True)
+    ctx.count("record_positions_checked", len(addressed))
+    ctx.count("record_positions_checked:" + device, len(addressed))
+    ctx.check("record_position_field_matches_formula", sorted(addressed) == named,
+              lambda: det({"expected destination positions": named, "addressed by the R records": sorted(addressed)}))
 
 
 # ---------------------------------------------------------------------------------------------
